@@ -61,6 +61,10 @@ fn gen_net(rng: &mut Rng) -> NetCfg {
 
 /// Protocol names: 0, 1 plain; 2 is not valid UTF-8; 3 is the lossy UTF-8 rendering of 2; 4 has
 /// name 1 as a proper prefix; 5 and 6 (plain / binary) are never registered.
+fn show(a: &[u8]) -> String {
+    a.escape_ascii().to_string()
+}
+
 fn alpn(i: u8) -> Vec<u8> {
     match i {
         2 => b"sim/bin/\xff\x01".to_vec(),
@@ -244,7 +248,7 @@ impl Typed for C40 {
                         Ok(r) => r,
                         Err(_) => Err("timeout".to_string()),
                     };
-                    ctx3.ev(format!("dial {i} -> {}", match &r { Ok(a) => format!("established alpn={}", String::from_utf8_lossy(a)), Err(e) => format!("failed ({})", e.split(':').next().unwrap_or("")) }));
+                    ctx3.ev(format!("dial {i} -> {}", match &r { Ok(a) => format!("established alpn={}", show(a)), Err(e) => format!("failed ({})", e.split(':').next().unwrap_or("")) }));
                     cell.lock().unwrap()[i] = Some(r);
                 };
                 if case.concurrent {
@@ -264,9 +268,9 @@ impl Typed for C40 {
             let invocations = log.lock().unwrap().clone();
             let flog = filter_log.lock().unwrap().clone();
             for (h, negotiated, tag) in &invocations {
-                ctx.ev(format!("handler proto{h} invoked negotiated={} tag={tag}", String::from_utf8_lossy(negotiated)));
+                ctx.ev(format!("handler proto{h} invoked negotiated={} tag={tag}", show(negotiated)));
                 if *negotiated != alpn(*h) {
-                    ctx.violate("connection-reached-handler-of-other-protocol", format!("handler for {} got a connection negotiated as {}", String::from_utf8_lossy(&alpn(*h)), String::from_utf8_lossy(negotiated)));
+                    ctx.violate("connection-reached-handler-of-other-protocol", format!("handler for {} got a connection negotiated as {}", show(&alpn(*h)), show(negotiated)));
                     return;
                 }
             }
@@ -276,7 +280,7 @@ impl Typed for C40 {
                 match &results[i] {
                     Ok(negotiated) => {
                         if !d.alpns.iter().any(|a| alpn(*a) == *negotiated) || !case.registered.iter().any(|a| alpn(*a) == *negotiated) {
-                            ctx.violate("negotiated-protocol-not-offered-or-not-registered", format!("dial {i} offered {:?}, registered {:?}, negotiated {}", d.alpns, case.registered, String::from_utf8_lossy(negotiated)));
+                            ctx.violate("negotiated-protocol-not-offered-or-not-registered", format!("dial {i} offered {:?}, registered {:?}, negotiated {}", d.alpns, case.registered, show(negotiated)));
                             return;
                         }
                         // The dialer can consider the handshake complete (and later give up) while its last
@@ -287,7 +291,7 @@ impl Typed for C40 {
                         } else if mine.len() != 1 {
                             ctx.violate(
                                 if mine.is_empty() { "established-connection-reached-no-handler" } else { "connection-handled-more-than-once" },
-                                format!("dial {i} established with {}: handler invocations {mine:?}", String::from_utf8_lossy(negotiated)),
+                                format!("dial {i} established with {}: handler invocations {mine:?}", show(negotiated)),
                             );
                             return;
                         }
